@@ -24,6 +24,18 @@ fn print(r: &Re) -> String {
         Re::Star(a) => format!("(?:{})*", print(a)),
     }
 }
+fn lit_user(c: char) -> String { if c == ']' { c.to_string() } else { lit(c) } }
+fn lit_in_class(c: char) -> String { if "\\[]^-".contains(c) { format!("\\{}", c) } else { c.to_string() } }
+fn print_user(r: &Re) -> String {
+    match r {
+        Re::Chr(c) => lit_user(*c),
+        Re::Cls(neg, cs) => format!("[{}{}]", if *neg { "^" } else { "" }, cs.iter().map(|c| lit_in_class(*c)).collect::<String>()),
+        Re::Seq(a, b) => format!("{}{}", print_user(a), print_user(b)),
+        Re::Alt(a, b) => format!("(?:{}|{})", print_user(a), print_user(b)),
+        Re::Star(a) => format!("(?:{})*", print_user(a)),
+        _ => print(r),
+    }
+}
 fn print_top(r: &Re) -> String { match r { Re::Alt(a, b) => format!("{}|{}", print(a), print(b)), _ => print(r) } }
 fn ser(r: &Re) -> String {
     match r {
@@ -78,6 +90,32 @@ pub fn main(args: &[String], w: &mut dyn Write) {
     let mut r = Rng::new(seed.wrapping_add(shard * 15487469));
     let galpha = ['a', 'b', '*', '?', 'é', ' ', '.', '\\'];
     for i in 0..(count / nsh) {
+        if i % 8 == 3 {
+            // regular expressions as a user may write them: `]` outside a class unescaped, class members unescaped where that is legal
+            let n = r.range(1, 5);
+            let mut items: Vec<Re> = vec![];
+            for _ in 0..n {
+                items.push(match r.below(6) {
+                    0 | 1 => Re::Chr(*r.pick(&['a', 'b', 'c', ']', 'é', ' '])),
+                    2 | 3 => { let k = r.range(1, 3); Re::Cls(r.chance(1, 4), (0..k).map(|_| *r.pick(&['a', 'b', 'c', '.', '*', '+', '(', ')', '|', '$', '#', '^', '-', ']', '['])).collect()) }
+                    4 => Re::Any,
+                    _ => Re::Star(Box::new(Re::Chr(*r.pick(&['a', 'b', ']'])))),
+                });
+            }
+            let mut it = items.into_iter();
+            let mut re = it.next().unwrap();
+            for x in it { re = Re::Seq(Box::new(re), Box::new(x)); }
+            let mut s = String::new(); sample(&mut r, &re, &mut s);
+            if r.chance(1, 3) { s = mutate(&mut r, &s); }
+            if s.contains('\n') { continue; }
+            let top = print_user(&re);
+            if top.ends_with(' ') || top.ends_with(')') { continue; }
+            let nl = r.chance(3, 4);
+            let mut line = s.clone().into_bytes(); if nl { line.push(b'\n'); }
+            let res = matches(&mk, &format!("{} (regex)", top), &line);
+            writeln!(w, "M u {}|{}|{} {}|{}", ser(&re), hex(top.as_bytes()), hex(s.as_bytes()), nl as u8, res).unwrap();
+            continue;
+        }
         if i % 8 == 7 {
             // what RegexRule::make turns an arbitrary expression into before the crate sees it (unmake returns the prepared expression)
             let e = rand_str(&mut r, &['a', 'b', '\\', '{', '}', '[', ']', '<', '>', '1', '2', ',', '(', ')', '|', '.', '*', '+', '?', '^', '-', '#', '_', ' '], 10);
